@@ -259,7 +259,8 @@ class ServerWorld:
         }
 
     def take_log(self):
-        lg, self.log = self.log, []
+        lg = list(self.log)
+        del self.log[:]
         return [self.namer.norm(e) for e in lg]
 
     def close(self):
